@@ -47,6 +47,7 @@ func (fr *frame) doCall(st *State, c *ssa.CallCommon, pos token.Pos, in ssa.Valu
 		// dynamic call through a function value
 		return fr.callDynamic(st, c, pos, in)
 	}
+	fr.callSiteAsserts(st, callee, pos)
 	args := fr.argVals(st, c)
 	if _, isClosure := c.Value.(*ssa.MakeClosure); isClosure || len(callee.FreeVars) > 0 {
 		vc.note("call of a closure in " + shortFuncName(fr.fn))
@@ -888,4 +889,45 @@ func (vc *VC) mergeAddrResults(states []*State, rets []*retInfo, i int, rt types
 		na.Nil = nil
 	}
 	return &Val{Addr: &na, Go: rt}
+}
+
+// callSiteAsserts checks the contract's "assert call(callee, n): e" clauses just before the n-th call of callee
+// (in instruction order of the SSA walk, i.e. source order for straight-line code).
+func (fr *frame) callSiteAsserts(st *State, callee *ssa.Function, pos token.Pos) {
+	vc := fr.vc
+	if !fr.top || vc.con == nil || len(vc.con.Asserts) == 0 {
+		return
+	}
+	name := callee.Name()
+	if vc.callCount == nil {
+		vc.callCount = map[string]int{}
+	}
+	n := vc.callCount[name]
+	vc.callCount[name] = n + 1
+	cls := vc.con.Asserts[fmt.Sprintf("%s#%d", name, n)]
+	if len(cls) > 0 {
+		if vc.assertHit == nil {
+			vc.assertHit = map[string]bool{}
+		}
+		vc.assertHit[fmt.Sprintf("%s#%d", name, n)] = true
+	}
+	for i, cl := range cls {
+		env := vc.newEnv(st, vc.entry, vc.pkgPath)
+		env.proving = true
+		for j, pn := range vc.con.ParamNames {
+			if pn != "_" && j < len(vc.params) {
+				env.oldVars[pn] = &SVal{T: vc.params[j], Go: vc.con.ParamTypes[j]}
+			}
+		}
+		env.local = func(nm string, s *State) *SVal { return fr.resolveLocal(nm, pos, s) }
+		t, err := env.trBool(cl.E)
+		if err != nil {
+			vc.specError(vc.con, cl, err)
+			continue
+		}
+		if o := vc.oblige("assert", st, t, pos, fmt.Sprintf("assertion before call %d of %s (%s:%d): %s", n, name, cl.File, cl.Line, cl.Src)); o != nil {
+			o.Name = fmt.Sprintf("%s#assert@%s.%d.%d", vc.funcName(), name, n, i)
+		}
+		vc.assertsSeen++
+	}
 }
